@@ -210,6 +210,10 @@ def run(chk, S: Session):
 
     rb = chk.rule("R-C10-B", "clause of this statement decided by a rule of C11 (the residual-based routine differentiates through jet_lift: time is a differentiated input there)", floor=6)
     borrow(chk, S, rb, "C11", lambda r, c: r == "R-C11-2")
+    # "the residual-based routine recovers the same coefficients for implicit problems": it solves with the Gauss-Newton routine, whose step must be the
+    # Gauss-Newton step -- one Jacobian of the constraint at the current iterate (rule of C19)
+    rb2 = chk.rule("R-C10-B2", "the residual-based routine's inner solver takes Gauss-Newton steps: Jacobian of the constraint at the current iterate, step formula, first step always taken (rules of C19)", floor=4)
+    borrow(chk, S, rb2, "C19", lambda r, c: r == "R-C19-1" or (r == "R-C19-2" and "first step" in c))
 
 
 def residual_routine_rules(chk, S):
